@@ -98,12 +98,45 @@ pub struct Report {
     pub samples: Vec<Value>,
     pub violations: Vec<Violation>,
     pub violation_count: u64,
+    /// violations that match a listed known finding: concrete key -> (listed key, occurrences).
+    /// They never compete with unlisted violations for the kept slots.
+    pub known_hits: BTreeMap<String, (String, u64)>,
     pub notes: Vec<String>,
     pub levels: Vec<Value>,
     pub exhaustive: bool,
 }
 
 pub const MAX_KEPT_VIOLATIONS: usize = 400;
+pub const MAX_KNOWN_KEYS: usize = 200_000;
+
+static PROPERTY: std::sync::OnceLock<String> = std::sync::OnceLock::new();
+static KNOWN: std::sync::OnceLock<KnownFindings> = std::sync::OnceLock::new();
+static TIER_NAME: std::sync::OnceLock<String> = std::sync::OnceLock::new();
+static CONCRETE: std::sync::OnceLock<Option<BTreeSet<String>>> = std::sync::OnceLock::new();
+/// `known_keys/<property>.<tier>.txt` (committed, one concrete key per line): when present, a listed key ending
+/// in `*` only covers the concrete keys enumerated there - the exact violations observed on the unchanged tree in
+/// that tier (the scopes are enumerated completely, so the set is fixed). Any other violation is reported, even if
+/// it shares the prefix. `VERIF_KNOWN_KEYS=off` disables the restriction (used to regenerate the files).
+fn concrete_known() -> Option<&'static BTreeSet<String>> {
+    CONCRETE
+        .get_or_init(|| {
+            if std::env::var("VERIF_KNOWN_KEYS").map(|v| v == "off").unwrap_or(false) {
+                return None;
+            }
+            let tier = TIER_NAME.get()?;
+            let path = format!("{}/known_keys/{}.{}.txt", verif_dir(), current_property(), tier);
+            let s = std::fs::read_to_string(path).ok()?;
+            Some(s.lines().map(|l| l.trim_end_matches('\n').to_string()).filter(|l| !l.is_empty()).collect())
+        })
+        .as_ref()
+}
+/// the property this process decides (set by `Ctx::new`; known findings are per property)
+pub fn current_property() -> String {
+    PROPERTY.get().cloned().unwrap_or_default()
+}
+pub fn known_findings() -> &'static KnownFindings {
+    KNOWN.get_or_init(load_known_findings)
+}
 pub const MAX_SAMPLES: usize = 6;
 
 impl Report {
@@ -124,6 +157,12 @@ impl Report {
     pub fn violation(&mut self, key: &str, msg: String, case: Value) {
         self.violation_count += 1;
         let key = mk_key(key);
+        if let Some((listed, _)) = known_findings().lookup(&current_property(), &key) {
+            if self.known_hits.len() < MAX_KNOWN_KEYS || self.known_hits.contains_key(&key) {
+                self.known_hits.entry(key).or_insert((listed, 0)).1 += 1;
+            }
+            return;
+        }
         if self.violations.len() < MAX_KEPT_VIOLATIONS && !self.violations.iter().any(|v| v.key == key) {
             self.violations.push(Violation { key, msg, case });
         }
@@ -144,6 +183,11 @@ impl Report {
             self.sample(s);
         }
         self.violation_count += o.violation_count;
+        for (k, (l, n)) in o.known_hits {
+            if self.known_hits.len() < MAX_KNOWN_KEYS || self.known_hits.contains_key(&k) {
+                self.known_hits.entry(k).or_insert((l, 0)).1 += n;
+            }
+        }
         for v in o.violations {
             if self.violations.len() < MAX_KEPT_VIOLATIONS && !self.violations.iter().any(|x| x.key == v.key) {
                 self.violations.push(v);
@@ -179,6 +223,8 @@ impl Ctx {
             .and_then(|s| s.parse().ok())
             .unwrap_or_else(|| std::thread::available_parallelism().map(|n| n.get()).unwrap_or(8));
         let start = Instant::now();
+        let _ = PROPERTY.set(property.to_string());
+        let _ = TIER_NAME.set(tier.name().to_string());
         Ctx {
             property: property.to_string(),
             tier,
@@ -270,6 +316,11 @@ impl KnownFindings {
             if p == prop {
                 if let Some(prefix) = k.strip_suffix('*') {
                     if key.starts_with(prefix) {
+                        if let Some(set) = concrete_known() {
+                            if !set.contains(key) {
+                                continue;
+                            }
+                        }
                         return Some((k.clone(), d.clone()));
                     }
                 }
@@ -318,11 +369,22 @@ pub fn load_known_findings() -> KnownFindings {
 /// Write replay files, print the interface lines, write the evidence file. Returns the
 /// process exit code (0 held / 1 violation).
 pub fn finish(ctx: &Ctx, mut rep: Report, rule: &str, assumptions: &[&str], extra: Value) -> i32 {
-    let kf = load_known_findings();
+    let kf = known_findings();
     let id = &ctx.property;
     rep.violations.sort_by(|a, b| (a.key.len(), &a.key).cmp(&(b.key.len(), &b.key)));
     let mut new_violations = 0u64;
     let mut known_hit: BTreeSet<String> = BTreeSet::new();
+    for (_, (listed, _)) in &rep.known_hits {
+        if known_hit.insert(listed.clone()) {
+            let desc = kf.known.get(&(id.clone(), listed.clone())).cloned().unwrap_or_default();
+            println!("KNOWN-FINDING: property={id} key={listed} {desc}");
+        }
+    }
+    // VERIF_DUMP_KNOWN=<file>: the concrete keys behind the listed findings (maintenance aid)
+    if let Ok(p) = std::env::var("VERIF_DUMP_KNOWN") {
+        let body: String = rep.known_hits.iter().map(|(k, (l, n))| format!("{id}\t{l}\t{n}\t{k}\n")).collect();
+        let _ = std::fs::write(p, body);
+    }
     let dir = format!("{}/replays/{id}", verif_dir());
     // replay files of earlier runs are stale
     let _ = std::fs::remove_dir_all(&dir);
@@ -364,6 +426,8 @@ pub fn finish(ctx: &Ctx, mut rep: Report, rule: &str, assumptions: &[&str], extr
         "violating_cases_total": rep.violation_count,
         "violating_cases_distinct_keys_kept": rep.violations.len(),
         "known_findings_matched": known_hit.len(),
+        "known_findings_concrete_keys": rep.known_hits.len(),
+        "known_findings_cases": rep.known_hits.values().map(|x| x.1).sum::<u64>(),
         "notes": rep.notes,
         "threads": ctx.threads,
         "subject_profile": ctx.profile,
